@@ -6,6 +6,53 @@ from ..index import norm
 from . import common
 
 
+def index_time(cls, m, e, depth=0):
+    """The time expression (text, in terms of m's parameters) a byte index was computed from by _getIndexAtTime,
+    following locals, tuple unpacking and private helpers of the same class; None if it is not such an index."""
+    if depth > 5 or e is None:
+        return None
+    if isinstance(e, ast.Call) and norm(e.func) == "self._getIndexAtTime" and e.args:
+        return norm(e.args[0])
+    if isinstance(e, ast.Name):
+        for n in ast.walk(m.node):
+            if isinstance(n, ast.Assign) and len(n.targets) == 1:
+                t = n.targets[0]
+                if isinstance(t, ast.Name) and t.id == e.id:
+                    return index_time(cls, m, n.value, depth + 1)
+                if isinstance(t, ast.Tuple):
+                    for k, el in enumerate(t.elts):
+                        if isinstance(el, ast.Name) and el.id == e.id:
+                            return _tuple_elt_time(cls, m, n.value, k, depth + 1)
+        return None
+    return None
+
+
+def _tuple_elt_time(cls, m, value, k, depth):
+    if isinstance(value, ast.Tuple) and k < len(value.elts):
+        return index_time(cls, m, value.elts[k], depth)
+    if isinstance(value, ast.Call) and isinstance(value.func, ast.Attribute) and norm(value.func.value) == "self":
+        h = cls.lookup(value.func.attr)
+        if h is None:
+            return None
+        rets = [n for n in ast.walk(h.node) if isinstance(n, ast.Return) and isinstance(n.value, ast.Tuple)]
+        if len(rets) != 1 or k >= len(rets[0].value.elts):
+            return None
+        t = index_time(cls, h, rets[0].value.elts[k], depth)
+        if t is None:
+            return None
+        # map the helper's parameter back to the call's argument
+        if t in h.params:
+            i = h.params.index(t)
+            if i < len(value.args):
+                return norm(value.args[i])
+            for kw in value.keywords:
+                if kw.arg == t:
+                    return norm(kw.value)
+            return None
+        return t
+    return None
+
+
 def strip_float(e):
     """float(x) -> x (a no-op wrapper for this purpose)."""
     while isinstance(e, ast.Call) and norm(e.func) == "float" and len(e.args) == 1:
@@ -72,35 +119,30 @@ def run(rep, tier):
         why = "the byte index is %s: rounding happens after the multiplication by the sample width, so the index can fall inside a sample" % norm(rets[0].value)
     rep.check(ok, "F1-aligned", gi.short, norm(rets[0].value) if rets else "return", ok="round(time * frameRate) * sampleWidth: a whole number of samples", bad=why, loc=gi.loc)
 
-    # ---- every slice of self.frames in Wav uses indices bound from _getIndexAtTime (or none)
+    # ---- every slice of self.frames in Wav uses indices derived from _getIndexAtTime
     nslices = 0
     for m in wav.methods.values():
-        idxvars = {}
-        for n in ast.walk(m.node):
-            if isinstance(n, ast.Assign) and len(n.targets) == 1 and isinstance(n.targets[0], ast.Name) and isinstance(n.value, ast.Call) and norm(n.value.func) == "self._getIndexAtTime":
-                idxvars[n.targets[0].id] = norm(n.value.args[0]) if n.value.args else "?"
         for n in ast.walk(m.node):
             if isinstance(n, ast.Subscript) and norm(n.value) == "self.frames" and isinstance(n.slice, ast.Slice):
                 nslices += 1
                 rep.functions.add(m.qual)
                 bounds = [b for b in (n.slice.lower, n.slice.upper) if b is not None]
-                bad = [norm(b) for b in bounds if not (isinstance(b, ast.Name) and b.id in idxvars) and not (isinstance(b, ast.Constant) and b.value == 0) and norm(b) != "len(self.frames)"]
+                bad = [norm(b) for b in bounds if index_time(wav, m, b) is None and not (isinstance(b, ast.Constant) and b.value == 0) and norm(b) != "len(self.frames)"]
                 rep.check(not bad and n.slice.step is None, "F1-aligned", m.short, norm(n), ok="bounds come from _getIndexAtTime", bad="slice bound %s is not a whole-sample byte index from _getIndexAtTime" % bad, loc=m.where(n))
     rep.floor("F1-aligned", 6, "_getIndexAtTime + 5 slices of self.frames")
 
     # ---- F2 shapes (semantic: which time each slice bound comes from)
     def prov(m, e):
         """the time argument a slice bound was computed from, or None."""
-        if isinstance(e, ast.Call) and norm(e.func) == "self._getIndexAtTime" and e.args:
-            return norm(e.args[0])
-        if isinstance(e, ast.Name):
+        return index_time(wav, m, e)
+
+    def frames_slice(m, e, depth=0):
+        """(lower provenance, upper provenance) of self.frames[lo:hi] or None."""
+        if isinstance(e, ast.Name) and depth < 4:
             defs = [n.value for n in ast.walk(m.node) if isinstance(n, ast.Assign) and len(n.targets) == 1 and norm(n.targets[0]) == e.id]
             if len(defs) == 1:
-                return prov(m, defs[0])
-        return None
-
-    def frames_slice(m, e):
-        """(lower provenance, upper provenance) of self.frames[lo:hi] or None."""
+                return frames_slice(m, defs[0], depth + 1)
+            return None
         if isinstance(e, ast.Subscript) and norm(e.value) == "self.frames" and isinstance(e.slice, ast.Slice) and e.slice.step is None:
             lo = prov(m, e.slice.lower) if e.slice.lower is not None else "START"
             hi = prov(m, e.slice.upper) if e.slice.upper is not None else "END"
@@ -186,16 +228,21 @@ def run(rep, tier):
         tab_t = [norm(n.value) for n in ast.walk(ct.node) if isinstance(n, ast.Assign) and norm(n.targets[0]) == "byteCode"]
         ok = u is not None and p is not None and tab_f == tab_t and len(tab_f) == 1 and "sampleWidthDict" in tab_f[0]
         if ok:
-            # sibling agreement: the two format expressions are the same up to the repeat count
-            def shape(call, count_txt):
-                return norm(call.args[0]).replace(count_txt, "N")
-            fu_parts = norm(u.args[0]).rsplit("* ", 1)
-            fp_parts = norm(p.args[0]).rsplit("* ", 1)
-            ok = len(fu_parts) == 2 and len(fp_parts) == 2 and fu_parts[0] == fp_parts[0]
+            # sibling agreement: (byte-order prefix, code variable, repeat count) of the two format expressions
+            def parts(e):
+                if isinstance(e, ast.BinOp) and isinstance(e.op, ast.Add) and isinstance(e.left, ast.Constant) and isinstance(e.right, ast.BinOp) and isinstance(e.right.op, ast.Mult):
+                    return e.left.value, norm(e.right.left), norm(e.right.right)
+                if isinstance(e, ast.JoinedStr) and len(e.values) == 2 and isinstance(e.values[0], ast.Constant) and isinstance(e.values[1], ast.FormattedValue):
+                    v = e.values[1].value
+                    if isinstance(v, ast.BinOp) and isinstance(v.op, ast.Mult) and e.values[1].format_spec is None:
+                        return e.values[0].value, norm(v.left), norm(v.right)
+                return None
+            pu, pp = parts(u.args[0]), parts(p.args[0])
+            ok = pu is not None and pp is not None and pu[0] == pp[0] and pu[1] == pp[1] == "byteCode"
             if ok:
-                cnt = fu_parts[1]
+                cnt = pu[2]
                 cdef = [norm(n.value) for n in ast.walk(cf.node) if isinstance(n, ast.Assign) and norm(n.targets[0]) == cnt] or [cnt]
-                ok = "len(byteStr)" in cdef[0] and "sampleWidth" in cdef[0] and "/" in cdef[0] and fp_parts[1] == "len(numList)"
+                ok = "len(byteStr)" in cdef[0] and "sampleWidth" in cdef[0] and "/" in cdef[0] and pp[2] == "len(numList)"
                 ok = ok and norm(p.args[1]) == "*numList" and norm(u.args[1]) == "byteStr"
         rep.check(ok, "F3-pack", "audio.convertFromBytes/convertToBytes", (norm(u.args[0]) if u else "?") + " | " + (norm(p.args[0]) if p else "?"),
                   ok="same byte-order prefix and width->code table on both sides, one code per sample (bytes/width codes when unpacking, len(samples) when packing)", bad="pack and unpack formats differ: converting samples to bytes and back is no longer the identity")
